@@ -10,7 +10,10 @@ PROP = {
                    "and after every mutating step the whole tree (type, mode, nlink, length, content). Exploration of a very "
                    "large space (operation x buffer shape x offset/length class x tree state x driver); no exhaustiveness "
                    "claim; an ASan leg re-runs a smaller sample for the pointer/length derivation."),
-    "level_note": ("Trusted: libc/std::fs on tmpfs (/dev/shm) of this sandbox as the reference; the harness's shadow model of "
+    "level_note": ("Leg pipe-transfer: writer and reader tasks of one runtime move position-tagged data through an anonymous pipe "
+                   "/ FIFO (content + count + EOF oracle); a /proc monitor reports a runtime thread that sleeps inside a data "
+                   "system call for 40 consecutive looks without a context switch (blocking descriptor on the runtime thread); "
+                   "not finishing for any other reason is inconclusive. Differential legs: trusted: libc/std::fs on tmpfs (/dev/shm) of this sandbox as the reference; the harness's shadow model of "
                    "which bytes a buffer shape exposes to the OS (documented IoBuf/IoBufMut semantics, independent of "
                    "compio-buf's implementation; compio-buf itself is C10). Steps that would block (empty pipe, FIFO open "
                    "without peer, zero-length read waiting for readiness) are decided by the non-blocking reference and skipped "
@@ -19,7 +22,9 @@ PROP = {
                    "coexist and the kernel's io_uring and syscall paths order them differently (name-level errors such as an "
                    "empty path combined with a second error) no program is generated."),
     "technique": "runtime monitoring: differential execution against a reference executor (libc/std::fs) and across drivers, per-step oracle over results, buffers and tree snapshots; AddressSanitizer leg",
-    "rule": ("cases = steps compared across the four executors; programs = 6..40 steps from {open with all OpenOptions "
+    "rule": ("[pipe-transfer leg: a case is one transfer (driver, anonymous/FIFO, total 1 B..1 MiB, writer chunking, reader "
+             "buffer sizes, reader delay, write vs write_all); distinct = (driver, pipe kind, size class vs pipe capacity, "
+             "write method, short writes seen?, late reader?)] differential legs: cases = steps compared across the four executors; programs = 6..40 steps from {open with all OpenOptions "
              "combinations/custom_flags/mode, close, read_at, write_at, read_vectored_at, write_vectored_at, set_len, "
              "sync_all/sync_data, File::metadata/set_permissions, metadata/symlink_metadata/set_permissions, create_dir(_all), "
              "DirBuilder.mode, remove_file/dir, rename, symlink, hard_link, fs::read/write, pipe::anonymous, named pipe open "
@@ -43,5 +48,10 @@ PROP = {
          "args": {"quick": ["--iters", 80, "--budget-ms", 60000, "--min-trials", 8],
                   "thorough": ["--iters", 3000, "--budget-ms", 420000, "--min-trials", 8]},
          "timeout_s": {"quick": 400, "thorough": 1200}},
+        # concurrent transfers: writer and reader are tasks of the same runtime, 1 B .. 1 MiB through an anonymous
+        # pipe / FIFO in every chunking; content oracle + /proc monitor "runtime thread asleep inside a data syscall"
+        {"name": "pipe-transfer", "build": "plain", "pkg": "vdrv", "cmd": "c08p", "shards": 4,
+         "args": {"quick": ["--iters", 60, "--budget-ms", 50000], "thorough": ["--iters", 1500, "--budget-ms", 420000]},
+         "timeout_s": {"quick": 300, "thorough": 900}},
     ],
 }
